@@ -30,9 +30,17 @@ def ctor_cases(ctx, drv, pending):
     for _ in range(n):
         L = sorted(gen.fresh_names(ctx.rng, ctx.rng.randint(1, 5)))
         extra = gen.fresh_names(ctx.rng, 1, set(L))[0]
+        if ctx.rng.random() < 0.6:
+            # an unknown name that is a fragment (prefix / suffix / infix), an extension or a re-casing of a declared one
+            base = ctx.rng.choice(L)
+            i, j = sorted(ctx.rng.sample(range(len(base) + 1), 2)) if len(base) >= 1 else (0, 0)
+            cands = [base[i:j], base[:max(1, len(base) - 1)], base[1:], base + "_", base + base[-1:], base.swapcase(), base[:1]]
+            cands = [c for c in cands if c and c not in L and c.isidentifier()]
+            if cands:
+                extra = ctx.rng.choice(cands)
         kind = ctx.rng.choice(["vector", "covariance"])
         keys = ctx.rng.sample(L, ctx.rng.randint(0, len(L)))
-        if ctx.rng.random() < 0.3:
+        if ctx.rng.random() < 0.45:
             keys.append(extra)
         ctx.rng.shuffle(keys)
         kw = {k: gen.dyadic(ctx.rng) if kind == "vector" else abs(gen.dyadic(ctx.rng)) + 1 for k in keys}
